@@ -137,6 +137,8 @@ func init() {
 		c07Packets(w, wc, r)
 		c07Variants(w, wc, r)
 		c07Diagnostics(w, r)
+		c07DependenciesFirst(w, wc, r)
+		wireTemplateTaint(w, wc, r, "C07", []string{"go", "rust", "java", "python", "cpp", "lua"})
 		wireAssumptions(r)
 	})
 	register("C17", "Necessary conditions on the emitted self-tests, visible in the sample/test emitters: every scalar table row has a non-empty sample value; every generator emits a test for every packet; the Rust and C++ test emitters copy back the fields their encoders overwrite (length and checksum) before comparing. "+
@@ -145,6 +147,8 @@ func init() {
 		c17Samples(w, r)
 		c17Coverage(w, wc, r)
 		c17CopyBack(w, wc, r)
+		c17StickyState(w, wc, r)
+		c17FloatSamples(w, r)
 		wireAssumptions(r)
 	})
 }
